@@ -109,7 +109,7 @@ func (e *Engine) helperFacts(g Guard) []Rel {
 	args := c.CallArgsT()
 	for i, p := range fn.Params {
 		if i < len(args) {
-			m[p.Name()] = args[i]
+			m[reviewedParamName(p)] = args[i]
 		}
 	}
 	var guards []Guard
